@@ -526,7 +526,8 @@ def splice_purity(ctx, rid):
                     continue
                 for d in g.defs.get(l[1], []):
                     if d[0] == "call":
-                        badc.append("result of %s" % d[1].name)
+                        if d[1].name not in ("fold", "try_fold"):      # the accumulator of a fold: its closure is checked below
+                            badc.append("result of %s" % d[1].name)
                         continue
                     rv = d[3]
                     if d[1] not in g.live_blocks or (rv[0] == "use" and rv[1][0] == "k"):
@@ -545,10 +546,15 @@ def splice_purity(ctx, rid):
     ctx.ob(rid, "apply_rewrite/read cursor is set only to the end of an accepted edit", not badc,
            "the position slices of the old source start from is only ever an accepted edit's range.end" if not badc else
            "the cursor into the old source is also moved by %s: more (or less) of the old text is skipped than the accepted edit's range" % badc[:3], where=ar0.loc())
-    # a fold closure hands on (text, cursor): the cursor component it returns is an edit's range.end
+    # a fold closure hands on (text, cursor) or the cursor alone: the cursor it returns is an edit's range.end
     for g in fam:
         if g is ar:
             continue
+        if g.locals[0] == "usize":
+            rets = g.trace_operand(["c", [0, []]])
+            okr = bool(rets) and all("end" in field_path(o2.proj) for o2 in rets)
+            ctx.ob(rid, "apply_rewrite/fold closure hands on range.end as the cursor", okr,
+                   "accumulator cursor = diff.range.end" if okr else "the cursor returned by the fold closure is not an edit's range.end", where=g.loc())
         for bi in sorted(g.live_blocks):
             for st in g.blocks[bi]["s"]:
                 if st[0] == "A" and st[1][0] == 0 and not st[1][1] and st[2][0] == "agg" and st[2][1].get("k") == "tuple":
